@@ -313,6 +313,8 @@ def generic_cases(kind, result_kind=None):
 
     def ret_ensures(pre, post):
         out = sf(pre, post) + heap_frame(pre, post)
+        if kind in ('parse', 'build'):
+            out.append(('no-ExplicitError-swallowed', t.not_(post.st.ghost.get('swallowed_explicit', t.FALSE)), ('C13',)))
         if result_kind is not None:
             rv = post.eng.to_dyn(post.result, post.st)
             tester = {'int': 'isint', 'bool': '(_ is VBool)', 'bytes': '(_ is VBytes)'}[result_kind]
@@ -415,7 +417,7 @@ def generic_contracts(src):
             qual = '%s:%s.%s' % (CORE, cls, m)
             abstract = is_abstract(src.find(qual))
             c = FnContract(qual, generic_cases(kind, RESULT_KIND.get(cls) if m in ('_parse', '_parsereport') else None), setup=method_setup(cls), stream_models=('bytesio', 'adv') if kind in ('parse', 'build') else ('bytesio',),
-                           tags=('C05', 'C06', 'C17', 'C18'))
+                           tags=('C05', 'C06', 'C13', 'C17', 'C18'))
             c.iface = dict(sub_seq=False, params_total=(kind != 'sizeof'), nat_params=(kind == 'sizeof'))
             if (cls, m) in ADAPTER_REQUIRES:
                 c.requires = ADAPTER_REQUIRES[(cls, m)]
